@@ -96,6 +96,34 @@ MUTANTS = [
   ("c10-bail-lists-first-failed-type-only", ["C10"], [("src/semantic/semantic_state.rs",
      "                    Vec::from_iter(to_resolve.iter().map(|s| s.to_string())),",
      "                    Vec::from_iter(to_resolve.iter().take(1).map(|s| s.to_string())),")]),
+  ("c10-array-of-type-declared-further-down-rejected", ["C10"], [("src/semantic/semantic_state.rs",
+     """        for definition in &module.definitions {
+            let new_path = path.join(definition.name.as_str().into());
+            // A type with a vftable block""",
+     """        // Fields are laid out in one pass: what a type embeds has to be declared above it.
+        for (index, definition) in module.definitions.iter().enumerate() {
+            if let grammar::ItemDefinitionInner::Type(ty) = &definition.inner {
+                for statement in &ty.statements {
+                    if let grammar::TypeField::Field(_, _, grammar::Type::Array(element, _)) = &statement.field {
+                        let grammar::Type::Ident(used) = &**element else { continue };
+                        if module.definitions[index + 1..]
+                            .iter()
+                            .any(|later| later.name.as_str() == used.as_str())
+                        {
+                            anyhow::bail!(
+                                "`{}` embeds `{}`, which is declared further down in module `{}`",
+                                definition.name,
+                                used,
+                                path
+                            );
+                        }
+                    }
+                }
+            }
+        }
+        for definition in &module.definitions {
+            let new_path = path.join(definition.name.as_str().into());
+            // A type with a vftable block""")]),
   ("c10-pointer-needs-resolved-pointee", ["C10"], [("src/semantic/types.rs",
      "            Type::ConstPointer(_) => Some(type_registry.pointer_size()),\n            Type::MutPointer(_) => Some(type_registry.pointer_size()),\n            // Saturates",
      "            Type::ConstPointer(t) | Type::MutPointer(t) => match t.as_ref() {\n                Type::Raw(_) => t.size(type_registry).map(|_| type_registry.pointer_size()),\n                _ => Some(type_registry.pointer_size()),\n            },\n            // Saturates")]),
